@@ -181,6 +181,7 @@ def stepLine (d : DSt) (toks : List String) : DSt × String :=
     | none => (d, "bad-op")
   | "stress" :: _ => (d, "done")
   | "burst" :: _ => (d, "done")
+  | "addrace" :: _ => (d, "done")
   | ["check"] =>
     let ans := match firstBad d.trace with
       | none => "accept"
